@@ -330,9 +330,41 @@ def job_derivative(ctx: Ctx, lmax):
             ctx.eq(f"row {k}: d/dphi routine == dY/dphi (away from the poles)", D[1, k, 0], d_angle(Y[k, 0], p), q.pc, assume=[p.s > 0], replay=rp, key=key + ":phi")
 
 
+def job_ground_float(ctx: Ctx):
+    """floating-point complements that real-number reasoning cannot see (ground checks on the float code, reported as such):
+    high degrees (range of the normalisation factors) and the pole convention of the derivative routine at phi = 0 and phi = pi exactly."""
+    ut = _mod()
+    ctx.encoded(ut.generate_real_spherical_harmonics, ut.generate_real_spherical_harmonics_scipy, ut.generate_derivative_real_spherical_harmonics)
+    import warnings
+    warnings.simplefilter("ignore")
+    rng = np.random.default_rng(harness.seed() + 3)
+    th, ph = rng.uniform(-1, 7, 4), rng.uniform(0.05, 3.09, 4)
+    bad = {}
+    for lmax in (60, 170, 200):
+        a = np.asarray(ut.generate_real_spherical_harmonics(lmax, th, ph), float)
+        b = np.asarray(ut.generate_real_spherical_harmonics_scipy(lmax, th, ph), float)
+        if not np.all(np.isfinite(a)) or np.max(np.abs(a - b)) > 1e-8:
+            bad[f"l_max={lmax}"] = dict(max_abs_difference=float(np.nanmax(np.abs(a - b))), finite=bool(np.all(np.isfinite(a))))
+        # addition theorem between direction 0 and 1 for the top degree
+        l = lmax
+        cg = np.sin(ph[0]) * np.sin(ph[1]) * np.cos(th[0] - th[1]) + np.cos(ph[0]) * np.cos(ph[1])
+        lhs = float(np.sum(a[l * l:(l + 1) ** 2, 0] * a[l * l:(l + 1) ** 2, 1]))
+        from scipy.special import eval_legendre
+        rhs = (2 * l + 1) / (4 * np.pi) * float(eval_legendre(l, cg))
+        if abs(lhs - rhs) > 1e-7 * (2 * l + 1):
+            bad[f"addition theorem l={l}"] = dict(sum=lhs, expected=rhs)
+    for pole in (0.0, float(np.pi)):
+        D = np.asarray(ut.generate_derivative_real_spherical_harmonics(6, np.array([0.3, 2.0, -1.0]), np.array([pole] * 3)), float)
+        if not np.all(np.isfinite(D)) or np.max(np.abs(D[1])) > 1e-12:
+            bad[f"dY/dphi at phi={pole}"] = dict(max_abs=float(np.nanmax(np.abs(D[1]))))
+    (ctx.ok if not bad else ctx.fail)("float code: recursion == SciPy implementation and addition theorem up to l_max = 200; polar derivative exactly 0 at phi = 0 and phi = pi", detail=str(bad)[:300],
+                                      key="real_spherical_harmonics:float-range-and-poles", how="ground enumeration (not a solver obligation)", replay=(lambda m: (True, bad)), **({} if not bad else dict(model={})))
+    ctx.twins_sat += 1
+
+
 def jobs(tier):
     js = [Job(f"harmonics/lmax={6 if tier == 'quick' else 12}", job_harmonics, 6 if tier == "quick" else 12), Job("solid", job_solid, 6 if tier == "quick" else 10),
-          Job(f"derivative+scipy/lmax={3 if tier == 'quick' else 6}", job_derivative, 3 if tier == "quick" else 6), Job("cart_to_sph/centre", job_cart_to_sph, True), Job("cart_to_sph/origin", job_cart_to_sph, False), Job("jacobian", job_jacobian)]
+          Job(f"derivative+scipy/lmax={3 if tier == 'quick' else 6}", job_derivative, 3 if tier == "quick" else 6), Job("ground/float", job_ground_float), Job("cart_to_sph/centre", job_cart_to_sph, True), Job("cart_to_sph/origin", job_cart_to_sph, False), Job("jacobian", job_jacobian)]
     only = os.environ.get("SYMGRID_ONLY")
     return [j for j in js if not only or only in j.name]
 
